@@ -74,15 +74,14 @@ def exec_corr(seed, tier):
             continue
         cfg = sc['cfg']
         names = sorted(run.observer.exec_events)
-        # executors are created in the order request, submission, io
-        caps = {}
-        if len(names) >= 1:
-            caps[names[0]] = (cfg['max_request_queue_size'] + cfg['max_in_memory_upload_chunks'] + cfg['max_in_memory_download_chunks'],
-                              cfg['max_request_concurrency'])
-        if len(names) >= 2:
-            caps[names[1]] = (cfg['max_submission_queue_size'], cfg['max_submission_concurrency'])
-        if len(names) >= 3:
-            caps[names[2]] = (cfg['max_io_queue_size'], 1)
+        # executors are created in the order request, submission, io (ex1, ex2, ex3 of this run's shims);
+        # an executor that saw no event (e.g. no request was ever submitted) is simply absent
+        stage_of = {'ex1': 'request', 'ex2': 'submission', 'ex3': 'io'}
+        limits = {'request': (cfg['max_request_queue_size'] + cfg['max_in_memory_upload_chunks'] + cfg['max_in_memory_download_chunks'],
+                              cfg['max_request_concurrency']),
+                  'submission': (cfg['max_submission_queue_size'], cfg['max_submission_concurrency']),
+                  'io': (cfg['max_io_queue_size'], 1)}
+        caps = {n: limits[stage_of[n]] for n in names if n in stage_of}
         for name in names:
             if name not in caps:
                 continue
@@ -94,7 +93,7 @@ def exec_corr(seed, tier):
                 else:
                     ops.append(('exec %s %d' % (kind, uid), 'ok'))
             ops.append(('exec state', 'free=%d queued=0 running=0' % cap))
-            stage = ['request', 'submission', 'io'][names.index(name)]
+            stage = stage_of[name]
             res.note_case((i, name), len(ops) > 6, {'stage': stage, 'cap': cap, 'workers': workers,
                                                     'events': [o for o, _ in ops[:14]]} if len(ops) > 6 else None)
             res.hit(stage)
